@@ -1,7 +1,7 @@
 """C11 - decided by spec/PonySession.tla: TLC checks the specification's invariants and action properties
 exhaustively in the bounded model; behaviours of the exported state graph are replayed into the real ORM on
 SQLite (harness/session.py) and this property's comparator decides (see harness/session_check.py)."""
-from .. import session_check, session_replay, cascade_c13
+from .. import session_check, session_replay, cascade_c13, refresh_c11
 
 LEVEL = 'model_checking'
 
@@ -18,9 +18,16 @@ def run(ctx):
     ctx.coverage['transitions'] += res.generated
     ctx.coverage['traces_validated_against_impl'] += stats['behaviours']
     ctx.coverage['cascade_model'] = dict(stats, graph_transitions=nedges, graph_transitions_replayed=nvisited)
+    # spec/PonyRefresh.tla: cached objects refreshed by rows that another transaction changed (IndexRight)
+    res, stats, found = refresh_c11.run(ctx, 1200 if quick else 12000, 2 if quick else 4)
+    refresh_c11.report(ctx, 'C11', res, stats, found)
 
 
 def replay(ctx, rep):
+    if 'refresh_trace' in rep:
+        refresh_c11.replay(ctx, rep)
+        ctx.violations.append('replayed')
+        return
     if 'cascade_trace' in rep:
         cascade_c13.replay(ctx, rep)
         ctx.violations.append('replayed')
